@@ -99,20 +99,28 @@ type rstep = { rc : int; rnp : int; rm : bool; rauthor : int; rtick : int; rinde
 let small_limit = 40
 type cinfo = { mutable allne : bool; mutable somene : bool; mutable ckeys : (int * int) list; mutable nrep : int }
 
-let pipe id c =
-  let cec = bool_of_sx (nth (args (field "cec" c)) 0) in
-  let is_scale = (match field_opt "mode" c with Some m -> atom (nth (args m) 0) = "scale" | None -> false) in
-  let obs = field "obs" c in
+let rec is_prefix p l = match p, l with
+  | [], _ -> true
+  | x :: p', y :: l' -> x = y && is_prefix p' l'
+  | _ :: _, [] -> false
+let rec drop k l = if k <= 0 then l else match l with [] -> [] | _ :: r -> drop (k - 1) r
+let rec but_last = function [] | [_] -> [] | x :: r -> x :: but_last r
+
+(* One analysis (Initialize + Run of one pipeline).  pfx: prefix of every message (which analysis of a re-use case);
+   prev_lh: the listing the CommitsAnalysis instance held when this analysis began (hashes; [] for a new instance).
+   Returns the listing the instance holds afterwards. *)
+let pipe_obs id pfx cec is_scale hib (prev_lh : string list) obs : string list =
+  let mismatch id m = mismatch id (pfx ^ m) and propfail id m = propfail id (pfx ^ m) in
   match args obs with
-  | [o] when tag o = "empty" -> count "pipe_empty"
+  | [o] when tag o = "empty" -> count "pipe_empty"; prev_lh
   | [o] when tag o = "panic" || tag o = "error" ->
       (* no result to judge; the model never fails *)
-      mismatch id ("the pipeline run failed: " ^ tag o)
+      mismatch id ("the pipeline run failed: " ^ tag o); prev_lh
   | _ ->
+  let failed = field_opt "failed" obs <> None in
   count "pipe_cases";
-  (match field_opt "hib" c with
-   | Some h when int_of_sx (nth (args h) 0) > 0 -> count "pipe_cases_with_hibernation"
-   | _ -> ());
+  if hib > 0 then count "pipe_cases_with_hibernation";
+  let lh = List.map atom (args (field "lhashes" obs)) in
   (* --- the steps the items saw *)
   let steps = List.map (fun s ->
     let a = args s in
@@ -155,7 +163,8 @@ let pipe id c =
   (* --- the assumption about the replay sequence (C02 / C14) *)
   let rok = replay_ok_fast msteps in
   if small && rok <> replay_ok msteps then mismatch id "driver-failure: replay_ok_fast and replay_ok disagree";
-  if not rok then mismatch id "replay_ok fails: merge flag <-> replayed more than once, at most one replay per parent";
+  (* a run that was made to fail may stop between the replays of one merge *)
+  if not rok && not failed then mismatch id "replay_ok fails: merge flag <-> replayed more than once, at most one replay per parent";
   (* replays of one commit are adjacent, on different branches, consecutively numbered *)
   (let seenc = Hashtbl.create 64 and seenb = Hashtbl.create 64 and prev = ref (-1) in
    List.iter (fun (ci, b) ->
@@ -179,6 +188,27 @@ let pipe id c =
         (incr reported; mismatch id (Printf.sprintf "step %d (commit %d): line stats impl=%s model=%s" i r.rc (show_rows r.rrows) (show_rows model)))
     end)
     (List.combine steps msteps));
+  (* --- an analysis that was made to fail (the recording item returned an error at its last recorded step): there is no
+     result; what the leaf items hold (read with Finalize) must be what the model holds after all the recorded steps or
+     after all but the last one (the item may come before or after the recording item in the pipeline) *)
+  if failed then begin
+    count "failed_analyses";
+    let real_devs = List.sort compare (List.map (fun t ->
+      let langs = List.sort compare (List.map (fun l -> (iarg l 0, iarg l 1, iarg l 2, iarg l 3)) (args (nth (args t) 6))) in
+      ((iarg t 0, iarg t 1), (iarg t 2, (iarg t 3, iarg t 4, iarg t 5), langs))) (args (field "devs" obs))) in
+    let conv_devs l = List.sort compare (List.map (fun ((t, a), dd) ->
+      ((ni t, ni a), (ni dd.dt_commits, (ni dd.dt_stats.added, ni dd.dt_stats.removed, ni dd.dt_stats.changed),
+         List.sort compare (List.map (fun (l, st) -> (ni l, ni st.added, ni st.removed, ni st.changed)) dd.dt_langs)))) l) in
+    if real_devs <> conv_devs (devs_result_fast cec msteps) && real_devs <> conv_devs (devs_result_fast cec (but_last msteps)) then
+      mismatch id "after a failed analysis DevsAnalysis holds neither the model's state after all recorded steps nor after all but the last";
+    let listed = List.map (fun cm -> iarg cm 0) (args (field "commits" obs)) in
+    let ids l = List.map (fun cs -> ni cs.cs_commit) l in
+    let stale = if prev_lh <> [] && is_prefix prev_lh lh then List.length prev_lh else 0 in
+    let rest = drop stale listed in
+    if rest <> ids (commits_run_fast msteps) && rest <> ids (commits_run_fast (but_last msteps)) then
+      mismatch id "after a failed analysis CommitsAnalysis holds neither the model's listing after all recorded steps nor after all but the last";
+    lh
+  end else begin
   (* --- fine correspondence 2: DevsResult *)
   let real_devs = List.map (fun t ->
     let langs = List.sort compare (List.map (fun l -> (iarg l 0, iarg l 1, iarg l 2, iarg l 3)) (args (nth (args t) 6))) in
@@ -206,13 +236,24 @@ let pipe id c =
     end
   end;
   (* --- fine correspondence 3: CommitsResult *)
-  let real_commits = List.map (fun cm ->
+  let real_commits_all = List.map (fun cm ->
     let files = List.sort compare (List.map (fun f -> (iarg f 0, iarg f 1, iarg f 2, iarg f 3, iarg f 4)) (args (nth (args cm) 3))) in
     (iarg cm 0, iarg cm 1, iarg cm 2, files)) (args (field "commits" obs)) in
   let conv_commits l = List.map (fun cs ->
     (ni cs.cs_commit, 1, ni cs.cs_author,
      List.sort compare (List.map (fun ((_, f), (lang, st)) -> (ni f, ni lang, ni st.added, ni st.removed, ni st.changed)) cs.cs_files))) l in
   let model_commits = conv_commits (commits_run_fast msteps) in
+  (* a CommitsAnalysis instance that was used before: when the listing as a whole is not the listing of this analysis
+     but begins with everything the instance held when the analysis began, that prefix is reported once (the listing
+     contains commits of ANOTHER analysis: not "exactly the commits replayed on a single branch") and the rest is
+     judged like the listing of a first analysis *)
+  let stale = if prev_lh <> [] && real_commits_all <> model_commits && is_prefix prev_lh lh then List.length prev_lh else 0 in
+  if stale > 0 then begin
+    count "analyses_with_stale_listing";
+    propfail id (Printf.sprintf "[reuse:commits-listing-not-reset] CommitsResult of a re-used CommitsAnalysis instance lists %d commit(s), the first %d are the entries the instance held from its earlier analyses (Initialize does not reset the listing), %d commit(s) are replayed on a single branch in this analysis"
+                   (List.length real_commits_all) stale (List.length model_commits))
+  end;
+  let real_commits = drop stale real_commits_all in
   if small && model_commits <> conv_commits (commits_run msteps) then mismatch id "driver-failure: commits_run_fast and commits_run disagree";
   let show_ids l = let l = List.map (fun (c, _, _, _) -> c) l in
     if List.length l <= 60 then String.concat " " (List.map string_of_int l)
@@ -401,6 +442,42 @@ let pipe id c =
     if a + ch <> ei || rr + ch <> ed then
       propfail id (Printf.sprintf "tick %d developer %d: added+changed=%d removed+changed=%d but the non-merge commits there insert %d and delete %d lines"
                      (fst k) (snd k) (a + ch) (rr + ch) ei ed)) all_keys
+  ; lh
+  end
+
+let pipe id c =
+  let cec = bool_of_sx (nth (args (field "cec" c)) 0) in
+  let is_scale = (match field_opt "mode" c with Some m -> atom (nth (args m) 0) = "scale" | None -> false) in
+  let hib = (match field_opt "hib" c with Some h -> int_of_sx (nth (args h) 0) | None -> 0) in
+  if field_opt "pd" c <> None then count "pipe_cases_with_a_given_people_dictionary";
+  ignore (pipe_obs id "" cec is_scale hib [] (field "obs" c))
+
+(* re-use: (obs (run i late cec hib (obs ...)) ...) - every analysis is judged like a first one *)
+let reuse id c =
+  let is_scale = field_opt "au" c <> None in
+  let rc = (match field_opt "rc" c with Some r -> bool_of_sx (nth (args r) 0) | None -> false) in
+  let runs = args (field "obs" c) in
+  let total = List.length (List.filter (fun r -> not (bool_of_sx (nth (args r) 1))) runs) in
+  count "reuse_cases";
+  let before : (int, string list) Hashtbl.t = Hashtbl.create 4 in
+  let held = ref [] in
+  List.iter (fun r ->
+    let a = args r in
+    let i = int_of_sx (nth a 0) and late = bool_of_sx (nth a 1) and cec = bool_of_sx (nth a 2) and hib = int_of_sx (nth a 3) in
+    let obs = nth a 4 in
+    if late then begin
+      count "reuse_results_changed_afterwards";
+      let pfx = Printf.sprintf "analysis %d of %d, its result read AGAIN after the leaf items were used by the later analyses: " (i + 1) total in
+      ignore (pipe_obs id pfx cec is_scale hib (try Hashtbl.find before i with Not_found -> []) obs)
+    end else begin
+      count "reuse_analyses";
+      if i > 0 then count "reuse_analyses_on_used_items";
+      Hashtbl.replace before i !held;
+      let pfx = if i = 0 then Printf.sprintf "analysis 1 of %d (new leaf items): " total
+        else Printf.sprintf "analysis %d of %d with the leaf item instances of the earlier ones (new pipeline, DeployItem, Initialize, Run): " (i + 1) total in
+      held := pipe_obs id pfx cec is_scale hib !held obs;
+      if not rc then held := []
+    end) runs
 
 (* The extracted list functions are not tail recursive; a script of 10^6 edits needs more than the default 8 MB of
    stack.  Re-execute once under a larger soft limit (the hard limit permitting; otherwise carry on as we are). *)
@@ -416,4 +493,5 @@ let () =
     match atom (nth (args (field "mode" c)) 0) with
     | "direct" -> direct id c
     | "pipe" | "scale" -> pipe id c
+    | "reuse" -> reuse id c
     | m -> failwith ("unknown mode " ^ m))
